@@ -131,6 +131,10 @@ def replay(cases):
                         edited = barg is not None and (si + len(hist) + len(label)) % 2 == 0
                         if edited:
                             barg = barg.copy()
+                        elif barg is not None and s["a"] not in ("toECEF", "toGeo", "toProj") and s["arg"] != "first" \
+                                and tr.base is not None and not isinstance(tr.base, int) and si > 0 and hist[si - 1].get("base") == s["arg"]:
+                            # state family: the caller hands the track ITS OWN recorded base object back (same frame as before)
+                            barg = tr.base
                         if s["a"] == "toECEF":
                             tr.toECEFCoords() if barg is None else tr.toECEFCoords(barg)
                         elif s["a"] == "toGeo":
